@@ -165,7 +165,7 @@ MUTANTS = [
     {"what": "fast_pareto 2-D sweep sorts the first column descending", "caught": True, "how": "front-minE!=optE, front-minL!=optL"},
 ]
 MANIFEST = {
-    "level_text": "Metamorphic testing of map_workload_to_arch: each generated small spec is mapped under ENERGY, LATENCY, ENERGY|LATENCY and ENERGY_DELAY_PRODUCT (plus one run with eval_in_detail off) and the optima must agree (front minima == single-metric optima, min E*L over the front == EDP optimum, EDP column == E*L on every row). No counterexample in N specs; not a proof.",
+    "level_text": "Metamorphic testing of map_workload_to_arch: each generated small spec (two thirds from a balanced family whose energy-latency front often has an interior EDP optimum) is mapped under ENERGY, LATENCY, ENERGY|LATENCY and ENERGY_DELAY_PRODUCT (plus one run with eval_in_detail off) and the optima must agree (front minima == single-metric optima, min E*L over the front == EDP optimum, EDP column == E*L on every row). No counterexample in N specs; not a proof.",
     "level_note": "1-2 Einsums, 2-3 memory levels, rank bounds <= 6, finite throughputs and leak. Optimum of a run = column minimum over returned rows. rel 1e-5.",
     "technique": "property-based metamorphic testing of the mapper (Hypothesis)",
 }
